@@ -53,6 +53,20 @@ func verifyFunctions(P *Program, C *Contracts, keys []string, opt solveOpts, fil
 			expanded = append(expanded, inst...)
 			continue
 		}
+		if fn == nil {
+			// a contract written against a generic method: every instance in the program
+			var inst []string
+			for ik := range P.Funcs {
+				if ik != k && stripTypeArgs(ik) == k && !strings.Contains(ik, "[Enc") && !strings.Contains(ik, "[T") {
+					inst = append(inst, ik)
+				}
+			}
+			if len(inst) > 0 {
+				sort.Strings(inst)
+				expanded = append(expanded, inst...)
+				continue
+			}
+		}
 		expanded = append(expanded, k)
 	}
 	keys = expanded
